@@ -49,6 +49,8 @@ def gen_case(rng, cap, tgt=64 * 1024 * 1024, adds=False, big=False, many=False):
         ops += [shardgen.fmt_cas(b) for b in blocks]
         if key:
             ops.append("key %s %d" % (key, rng.choice([7, 7, 3, 6])))
+        # the file's modification time (few distinct values: ties are kept in argument order)
+        ops.append("mt %d" % rng.choice([1000, 2000, 2000, 3000, 4000]))
         ops.append("==")
     order = list(range(len(shards)))
     rng.shuffle(order)
@@ -105,8 +107,13 @@ def gen_case(rng, cap, tgt=64 * 1024 * 1024, adds=False, big=False, many=False):
     if len(order) >= 2 and rng.random() < 0.6:
         a = rng.randrange(0, len(order) - 1)
         b = rng.randrange(a + 2, len(order) + 1)
-        times = [rng.choice([1000, 2000, 2000, 3000, 4000]) for _ in range(b - a)]
-        batch_of[order[a]] = "RB " + ",".join("%d:%d" % (order[a + j], times[j]) for j in range(b - a))
+        members = [order[a + j] for j in range(b - a)]
+        # the call may name files that are registered already (a directory refresh hands over everything it finds): they are
+        # skipped, wherever the sort puts them
+        if a > 0 and rng.random() < 0.6:
+            for x in rng.sample(order[:a], min(a, rng.choice([1, 2]))):
+                members.insert(rng.randrange(len(members) + 1), x)
+        batch_of[order[a]] = "RB " + ",".join(str(x) for x in members)
         for j in range(a + 1, b):
             batch_of[order[j]] = None
     for k, i in enumerate(order):
